@@ -142,6 +142,36 @@ pub fn gen_instance(r: &mut Rng, p: &InstParams) -> Inst {
     Inst { courses, parts, rooms }
 }
 
+/// An instance aimed at the f32 rounding corner of the room stage: a course whose minimum (with
+/// instructors) fits a room by the forward formula `ceil(offset + factor * n) <= room` while the
+/// inverse `floor((room - offset) / factor)` is below `n`; more participants want the course than
+/// the room holds, so the room stage has to shrink it.
+pub fn gen_f32_corner(r: &mut Rng) -> Inst {
+    // (factor, offset, n = num_min + instructors, room)
+    let triples: [(f32, f32, usize, usize); 6] =
+        [(0.3, 0.1, 3, 1), (1.1, 1.3, 7, 9), (2.7, 0.1, 7, 19), (1.2, 0.0, 15, 18), (0.6, 0.0, 15, 9), (0.3, 0.7, 11, 4)];
+    let (f, off, n, room) = triples[[0usize, 0, 1, 1, 2, 3, 4, 5][r.usize(8)]];
+    let with_instr = n >= 2 && r.chance(1, 2);
+    let ninstr = if with_instr { 1 } else { 0 };
+    let extra = 1 + r.usize(3);
+    let np = n + extra + ninstr + r.usize(2);
+    let mut courses = vec![
+        CourseDump { index: 0, dbid: 100, name: "A".into(), num_min: n - ninstr, num_max: n + extra + 2, instructors: vec![],
+            room_factor: f, room_offset: off, fixed_course: false, hidden_participant_names: vec![] },
+        CourseDump { index: 1, dbid: 101, name: "B".into(), num_min: 0, num_max: np, instructors: vec![],
+            room_factor: 1.0, room_offset: 0.0, fixed_course: false, hidden_participant_names: vec![] },
+    ];
+    let mut parts: Vec<ParticipantDump> = (0..np)
+        .map(|i| ParticipantDump { index: i, dbid: 1000 + i, name: format!("p{}", i), choices: vec![(0, 0), (1, 1)] })
+        .collect();
+    if with_instr {
+        parts[0].choices = vec![];
+        courses[0].instructors.push(0);
+    }
+    let second = if r.chance(1, 2) { room } else { np + 5 };
+    Inst { courses, parts, rooms: Some(vec![room, second]) }
+}
+
 #[derive(Clone, Debug)]
 pub struct Matrix {
     pub nx: usize,
